@@ -71,11 +71,30 @@ def run(defs, tag, N, m, maxlen, timeout=1200, per_def_timeout=600):
         for d in ch:
             part_of[d["name"]] = "part_%d" % k
     env = dict(os.environ, CARGO_NET_OFFLINE="true", CARGO_TARGET_DIR=os.path.join(root, "target_native"))
-    b = C.run_group(["cargo", "build", "--offline", "-q", "--release", "--bins"], cwd=root, env=env, timeout=timeout)
+    b = C.run_group(["cargo", "build", "--offline", "-q", "--release", "--bins", "--keep-going"], cwd=root, env=env, timeout=timeout)
+    unbuilt = {}
     if b.returncode != 0:
-        return [{"def": d, "status": "undecided", "reason": "native build of the sweep crate failed: " + b.stderr[-600:], "crate": root} for d in ds]
+        # some binary does not build (typically: the macro panics on, or generates uncompilable code for, one of its definitions - C12's
+        # business).  The definitions of the binaries that did not build are rebuilt ONE PER BINARY, so that one bad definition does not
+        # blind the sweep of the others.
+        bad_parts = [k for k in range(len(chunks)) if not os.path.exists(os.path.join(root, "target_native", "release", "part_%d" % k))]
+        singles = []
+        for k in bad_parts:
+            os.remove(os.path.join(root, "src", "bin", "part_%d.rs" % k))
+            for d in chunks[k]:
+                nm = "one_%s" % d["name"]
+                open(os.path.join(root, "src", "bin", nm + ".rs"), "w").write(G.crate_main([(d, m, 0, True)], N, m))
+                part_of[d["name"]] = nm
+                singles.append(d)
+        b2 = C.run_group(["cargo", "build", "--offline", "-q", "--release", "--bins", "--keep-going"], cwd=root, env=env, timeout=timeout)
+        for d in singles:
+            if not os.path.exists(os.path.join(root, "target_native", "release", part_of[d["name"]])):
+                mo = re.search(r"(proc macro panicked[^\n]*\n[^\n]*\n[^\n]*)", b2.stderr)
+                unbuilt[d["name"]] = "the definition does not expand / compile on this tree (C12 decides that): " + (b2.stderr[-300:] if not mo else mo.group(1)[:300])
 
     def one(d):
+        if d["name"] in unbuilt:
+            return {"def": d, "status": "undecided", "reason": unbuilt[d["name"]], "crate": root}
         al = alphabet(d)
         binary = os.path.join(root, "target_native", "release", part_of[d["name"]])
         args = [binary, "sweep", d["name"], str(d.get("sweep_maxlen", maxlen))] + [str(ord(ch)) for ch in al]
